@@ -196,6 +196,15 @@ def inner_app(iface: str, recipe: str, sym: Dict[str, Any], counter: List[int]):
             await send({"type": "http.response.body", "more_body": True})
             await send({"type": "http.response.body"})
         return app
+    if recipe == "raw-events-iterable-headers":
+        # the ASGI spec types `headers` as an Iterable of pairs: a hand-written application may pass a one-shot iterable (generator), here with two cookies
+        async def app(scope, receive, send):
+            counter[0] += 1
+            hb = hv.encode("latin-1") if not isinstance(hv, bytes) else hv
+            await send({"type": "http.response.start", "status": st,
+                        "headers": (pair for pair in [(b"x-a", hb), (b"set-cookie", b"a=1; path=/"), (b"x-b", b"2"), (b"set-cookie", b"b=2")])})
+            await send({"type": "http.response.body", "body": sym.get("body", b"first")})
+        return app
     if recipe == "file-zerocopy":
         # a FileResponse on a real file behind a server that offers the zero-copy-send extension
         p = _shared_file()
@@ -729,7 +738,7 @@ def jobs(tier: str):
     b = META["bounds"][tier]
     out = [dict(name="asgi/overlap/two-requests-one-middleware", iface="asgi", recipe="overlap", depth=1, kind="overlap", what="schedule", weight=40)]
     for iface in ("wsgi", "asgi"):
-        for recipe in ("plain", "empty", "json", "redirect", "cookie1", "cookie2", "stream", "restart", "raises") + (("list1", "list2", "emptylist", "tuple1") if iface == "wsgi" else ("raw-events", "raw-events-204", "file-zerocopy")):
+        for recipe in ("plain", "empty", "json", "redirect", "cookie1", "cookie2", "stream", "restart", "raises") + (("list1", "list2", "emptylist", "tuple1") if iface == "wsgi" else ("raw-events", "raw-events-204", "raw-events-iterable-headers", "file-zerocopy")):
             for depth in range(1, b["depth_max"] + 1):
                 what = "header" if recipe not in ("cookie1", "cookie2") else "cookie"
                 out.append(dict(name=f"{iface}/{recipe}/identity{depth}/{what}", iface=iface, recipe=recipe, depth=depth, kind="identity", what=what, n=1))
